@@ -1,6 +1,7 @@
 import VtModel.Source
 import VtModel.MBTiles
 import VtModel.BBoxProto
+import VtModel.Hilbert
 /-!
 How the container readers compute the coverage pyramid they advertise (property C03):
 
@@ -47,6 +48,34 @@ def versatilesCover (src : Pyramid) : Outcome Pyramid :=
     | .err => .err
     | .panic => .panic) (.ok Pyramid.newEmpty)
 
+/-! ### PMTiles directory entries with run lengths -/
+
+/-- one iteration of `for i in 0..entry.run_length` (pmtiles/reader.rs:141-145):
+    `tile_id_to_coord(i + entry.tile_id)?` then `include_coord` -/
+def runStep (acc : Outcome Pyramid) (id : Nat) : Outcome Pyramid :=
+  acc.bind fun p =>
+    if id ≥ U64 then .err                                   -- `checked_add(..).context("tile id overflow")?`
+    else match Hilbert.tileIdToCoordLoop id with
+      | .ok c => includeStep (.ok p) c
+      | .err => .err
+      | .panic => .panic
+
+/-- the inner loop over one entry `(tile_id, run_length)`: every id of the run -/
+def coverRunLoop (acc : Outcome Pyramid) (id n : Nat) : Outcome Pyramid :=
+  (List.range' id n).foldl runStep acc
+
+/-- the coverage walk over tile entries `(tile_id, run_length)` (leaf pointers already resolved) -/
+def coverOfRuns (runs : List (Nat × Nat)) : Outcome Pyramid :=
+  runs.foldl (fun acc r => coverRunLoop acc r.1 r.2) (.ok Pyramid.newEmpty)
+
+/-- all tile ids addressed by the entries -/
+def expandRuns (runs : List (Nat × Nat)) : List Nat := runs.flatMap fun r => List.range' r.1 r.2
+
+/-- versatiles reader: `include_bbox` of every block's global box from `new_empty`
+    (block_index.rs:66-73; `HashMap` order – the union is order-insensitive) -/
+def coverOfBlocks (blocks : List BBox) : Outcome Pyramid :=
+  blocks.foldl (fun acc b => acc.bind fun p => Pyramid.includeBBox p b) (.ok Pyramid.newEmpty)
+
 /-! ### the exact bounding box, as a specification -/
 
 /-- `b` is the bounding box of the coordinates of `cs` at level `z`: it contains all of them and
@@ -85,6 +114,16 @@ def handle (args : List String) : String :=
       | "versatiles" => showO Pyramid.render (versatilesCover cov)
       | _ => "bad-op"
     | _, _ => "bad-op"
+  | ["runs", rs] =>
+    match (rs.splitOn ";").mapM (fun t => match parseNats (t.splitOn ":") with
+        | some [a, b] => some (a, b)
+        | _ => none) with
+    | some runs => showO Pyramid.render (coverOfRuns runs)
+    | none => "bad-op"
+  | ["blocks", bs] =>
+    match (bs.splitOn ";").mapM BBoxProto.parseBox with
+    | some l => showO Pyramid.render (coverOfBlocks l)
+    | none => "bad-op"
   | _ => "bad-op"
 
 end VtModel.Coverage
